@@ -90,14 +90,41 @@ def is_identity_closure(F, body, cs):
     return False
 
 
+MIRROR = {}
+
+
+def mirror_traits(F):
+    """object-safe mirrors of the public traits, by role (whatever they are called): a trait M of the workspace that is implemented
+    under a bound on a public trait T of TRAITS (`impl<E: Entry> M for E`, `impl<W: ValueWriter> M for Adapter<W>`) and whose methods
+    are all methods of T -> {M: T}"""
+    out = {}
+    items = {}
+    for d, t in F.traits.items():
+        items.setdefault(trait_name(d), {(i_ if isinstance(i_, str) else i_.get("name")) for i_ in (t.get("items") or [])})
+    for imp in F.impls:
+        if imp["crate"] not in WS_LIBS:
+            continue
+        mn = trait_name(imp.get("trait") or "")
+        if not mn or mn in TRAITS or not (imp.get("trait") or "").startswith("metrique") or not items.get(mn):
+            continue
+        for p in imp.get("preds", []):
+            rhs = p.split(": ", 1)[-1]
+            tn_ = trait_name(rhs.split("<")[0])
+            if tn_ in TRAITS and items.get(mn) <= items.get(tn_, set()):
+                out[mn] = tn_
+    return out
+
+
 def wrapper_impls(F):
+    MIRROR.clear()
+    MIRROR.update(mirror_traits(F))
     out = []
     for imp in F.impls:
         if imp["crate"] not in WS_LIBS:
             continue
         t = imp.get("trait") or ""
         tn = trait_name(t)
-        base = tn[3:] if tn.startswith("Dyn") else tn
+        base = MIRROR.get(tn, tn)
         if base not in TRAITS or not t.startswith("metrique"):
             continue
         f = imp["span"]["file"]
@@ -125,8 +152,8 @@ def wrapper_impls(F):
                     imp = dict(imp, _inner=[fd["name"] for fd in inner])
         # object-safe mirror bridge: impls of the private Dyn* traits, and impls of the public traits for ADTs holding `dyn Dyn*`
         adt0 = F.adts.get((imp.get("self_head") or {}).get("adt"))
-        holds_dyn = bool(adt0) and any("dyn " in fd["ty"] and "::Dyn" in fd["ty"] for v in adt0["variants"] for fd in v["fields"])
-        if kind is None and (tn.startswith("Dyn") or holds_dyn):
+        holds_dyn = bool(adt0) and any("dyn " in fd["ty"] and any(("::" + m_) in fd["ty"] for m_ in MIRROR) for v in adt0["variants"] for fd in v["fields"])
+        if kind is None and (tn in MIRROR or holds_dyn):
             kind = "dyn-bridge"
         cross = None
         for (suffix, ctn, m), tgt in CROSS.items():
@@ -146,6 +173,8 @@ def run(ctx):
     WRAPPER_ADTS.clear()
     WRAPPER_ADTS.update(a for a in ((imp.get("self_head") or {}).get("adt") for imp, _, _ in wi) if a)
     ctx.floor("R15.1", "wrapper impls discovered", len(wi), 35)
+    ctx.floor("R15.1", "object-safe mirror traits behind the boxed entry (by role)", len(MIRROR), 3)
+    ctx.floor("R15.1", "bridge impls between a public trait and its object-safe mirror", len([1 for _, _, k_ in wi if k_ == "dyn-bridge"]), 6)
     from rules.c19 import converting_writer_types
     conv_tys = converting_writer_types(F)
     nmeth = 0
@@ -158,7 +187,7 @@ def run(ctx):
             if b is None:
                 continue
             m = it["name"]
-            if (tn, m) in EXEMPT or (tn[3:], m) in EXEMPT:
+            if (tn, m) in EXEMPT or (MIRROR.get(tn, tn), m) in EXEMPT:
                 continue
             if imp["self_ty"] in conv_tys:
                 ctx.note("R15: %s::%s of the unit-converting wrapper is checked by C19 (R19.4)" % (tn, m))
@@ -254,7 +283,7 @@ def check_forwarder(ctx, F, imp, b, tn, m, tgt, kind, key, outer=None):
     st = imp["self_ty"]
     def same_family(t):
         t = trait_name(t)
-        return t == tgt[0] or t == "Dyn" + tgt[0] or (tgt[0].startswith("Dyn") and t == tgt[0][3:])
+        return t == tgt[0] or MIRROR.get(t) == tgt[0] or MIRROR.get(tgt[0]) == t
     fwd = [c for c in b.calls() if c.name == tgt[1] and (same_family(c.trait) or same_family(c.callee.get("impl_trait")))]
     delegate = find_delegate(F, b, pr, tgt, same_family) if not fwd and not outer else None
     # receiver derives from self
